@@ -225,6 +225,8 @@ func (e *Engine) cmdCheck(prop, tier, evid, known, replayDir string, replay bool
 		all = append(all, e.structuralObligations("copy")...)
 	case "C20":
 		all = append(all, e.structuralObligations("isDuplicate")...)
+	case "C10":
+		all = append(all, e.canonObligations()...)
 	}
 	all = append(all, e.wirefmtObligations(prop)...)
 	// lemmas: those tagged with the property and those cited by the functions under contract
